@@ -24,6 +24,8 @@ type specEnv struct {
 	fr    *Frame
 	bound map[string]Term
 	where string
+	loopPre  *State        // state at loop entry (loop clauses only)
+	loopVars map[string]SV // bindings of locals at loop entry
 }
 
 type specError struct{ msg string }
@@ -402,7 +404,7 @@ var ghostBuiltins = map[string]bool{
 	"pendingErr": true, "pendingFailed": true, "ctxDone": true, "allocated": true, "sameSlice": true,
 	"deferActive": true, "deferVal": true, "mathInt": true, "fitsInt64": true, "fitsInt32": true,
 	"strLen": true, "boolToInt": true, "uninterp": true, "loopEntry": true, "isNaN": true, "isInf": true,
-	"toFloat": true, "exactCmpIF": true, "roundHalfAway": true, "truncF": true, "f2iInRange64": true,
+	"toFloat": true, "exactCmpIF": true, "errIsCtx": true, "roundHalfAway": true, "truncF": true, "f2iInRange64": true, "f2iTrunc": true,
 }
 
 func (env *specEnv) call(e *ast.CallExpr) SV {
@@ -439,6 +441,11 @@ func (env *specEnv) call(e *ast.CallExpr) SV {
 				ifaceMethod = sel.Obj().(*types.Func)
 			} else {
 				callee = x.prog.MethodValue(sel)
+				if mf, ok := sel.Obj().(*types.Func); ok && len(sel.Index()) > 1 {
+					if declared := x.prog.FuncValue(mf); declared != nil {
+						callee = declared // promoted method: call the declared method on the embedded part
+					}
+				}
 				// adjust receiver for implicit address-of / deref and embedding
 				recv = env.adjustRecv(recv, rt, sel)
 				args = append(args, recv)
@@ -534,8 +541,16 @@ func (env *specEnv) adjustRecv(recv SV, rt types.Type, sel *types.Selection) SV 
 				p := x.ptrOf(cur, ct)
 				np := *p
 				np.path = append(append([]int{}, p.path...), i)
-				cur = &np
-				ct = types.NewPointer(pt.Elem().Underlying().(*types.Struct).Field(i).Type())
+				ft := pt.Elem().Underlying().(*types.Struct).Field(i).Type()
+				if _, fieldIsPtr := ft.Underlying().(*types.Pointer); fieldIsPtr {
+					lv := x.load(env.st, &np)
+					x.embeddedNonNil(&np, lv)
+					cur = lv
+					ct = ft
+				} else {
+					cur = &np
+					ct = types.NewPointer(ft)
+				}
 			} else {
 				c := x.asTerm(cur, ct)
 				cur = x.enc.structField(ct, c, i)
@@ -674,7 +689,13 @@ func (env *specEnv) ghost(name string, targs []ast.Expr, e *ast.CallExpr) SV {
 		}
 		return c.eval(e.Args[0])
 	case "loopEntry":
-		return env.eval(e.Args[0])
+		if env.loopPre == nil {
+			env.fail("loopEntry() is only available in loop clauses")
+		}
+		c := *env
+		c.st = env.loopPre
+		c.vars = env.loopVars
+		return c.eval(e.Args[0])
 	case "implies":
 		return mkImplies(env.evalBool(e.Args[0]), env.evalBool(e.Args[1]))
 	case "iff":
@@ -708,6 +729,8 @@ func (env *specEnv) ghost(name string, targs []ast.Expr, e *ast.CallExpr) SV {
 			return c
 		}
 		return pv
+	case "errIsCtx":
+		return x.errorsIs(env.evalTerm(e.Args[0]), T(SInt, "sent_ctx"))
 	case "errIs":
 		a, b := env.evalTerm(e.Args[0]), env.evalTerm(e.Args[1])
 		return x.errorsIs(a, b)
@@ -768,7 +791,11 @@ func (env *specEnv) ghost(name string, targs []ast.Expr, e *ast.CallExpr) SV {
 		if !ok || len(fl.Body.List) != 1 {
 			env.fail("%s body must be a single return statement", name)
 		}
-		body := c.evalBool(ret.Results[0])
+		x.vc.quant++
+		body := func() Term {
+			defer func() { x.vc.quant-- }()
+			return c.evalBool(ret.Results[0])
+		}()
 		if name == "forall" {
 			return T(SBool, fmt.Sprintf("(forall (%s) %s)", strings.Join(decls, " "), mkImplies(mkAnd(ranges...), body).S))
 		}
@@ -807,6 +834,8 @@ func (env *specEnv) ghost(name string, targs []ast.Expr, e *ast.CallExpr) SV {
 		return app(SF64, "fp.roundToIntegral RTZ", env.evalTerm(e.Args[0]))
 	case "roundHalfAway":
 		return app(SF64, "fp.roundToIntegral RNA", env.evalTerm(e.Args[0]))
+	case "f2iTrunc":
+		return x.enc.floatToInt(env.evalTerm(e.Args[0]), types.Typ[types.Int64])
 	case "f2iInRange64":
 		f := env.evalTerm(e.Args[0])
 		lo := x.enc.floatConst(-9223372036854775808.0, SF64)
